@@ -8,7 +8,7 @@ from lib.gallina import gstr, gbool, glist, gpair, gopt, gnat
 ID = "C06"
 RUN_MODULE = "RunC06"
 DRIVER = "keys_driver.py"
-SHARD = 250
+SHARD = 160
 MAX_DRIVER_SHARDS = 2     # keep neighbouring cases in one interpreter (history-dependent behaviour)
 ALT_ENVS = [{"PYTHONHASHSEED": "1"}, {"PYTHONHASHSEED": "2"}]
 RULE = ("random calls (alias, capture selection all/none/by position/by name, static or instance, nested args/kwargs in "
@@ -20,6 +20,14 @@ RULE = ("random calls (alias, capture selection all/none/by position/by name, st
         "plays one operation whose 4 worker threads make 25 intercepted calls each with the SAME argument objects (ordinal "
         "by position or keyword, shared options positional or keyword, capture all / by position / by name, static and "
         "instance; interleaving forced by a gate object inside the shared argument, or a 10 us switch interval); "
+        "a lookup probe declares the input as the current version of a service does - plain or resolver-formatted alias, "
+        "fallback_aliases as a list or a function (1-3 aliases, now and then the main alias / one alias twice) - next to one "
+        "older version per fallback alias, records the call and its siblings (the same call with the alias texts swapped "
+        "inside the argument values) through those versions (all by one old version, or mixed / twice / not at all) and plays "
+        "the recording through the current version; alias texts are names contained in one another, words of the key layout "
+        "(args, kwargs, input) and of the value encoding (py/tuple, null, a class path) and occur inside the captured values "
+        "(string, part of a string, dict key, attribute name, nested), capture all / none / by position / by name, static "
+        "and instance; "
         "non-trivial = at least one captured container argument or keyword; distinct = distinct case")
 ASSUMPTIONS = ["float repr() is taken from the implementation side (floats are repr texts in the model); every float text "
                "the harness sends is checked against the grammar Values.JsonWf.float_repr_ok that the injectivity theorem "
@@ -37,7 +45,10 @@ THEOREMS = ["C06_key_deterministic_partial", "C06_excluded_args_irrelevant", "C0
             "C06_key_injective", "C06_key_injective_concrete", "C06_dumps_injective", "C06_dumps_self_delimiting",
             "C06_flatten_well_formed", "C06_dumps_not_injective_outside_domain_refuted", "C06_flatten_roundtrip",
             "C06_set_order_refuted"]
-TRUSTED = ["harness-side mirror of the capture selection used by the collision search"]
+TRUSTED = ["harness-side mirror of the capture selection used by the collision search",
+           "harness-side mirror of the alias resolver of the lookup probe ({p} = text of one positional argument) and of "
+           "'first alias in lookup order that has an entry for the same captured values' used to say what a replayed call "
+           "must receive; the looked-up keys are observed by wrapping TapeRecorder._playback_recorded_interception"]
 
 ALIASES = ["get_user", "db.fetch", "a b", "x", "get_user_2", "svc:{id}", "é", "in#1", "a args", "kw, x"]
 
@@ -309,7 +320,7 @@ def lookup_probe(rng, tier):
             args = ([] if static else [pv.s("SELF")]) + user
             out.append(lookup_case(rng, alias, resolver, fbs, "fun" if j % 4 == 3 else "list", static, cap, args, kwargs,
                                    "old" if j % 2 == 0 else "mixed"))
-    for _ in range(120 if tier == "quick" else 1500):
+    for _ in range(100 if tier == "quick" else 1500):
         resolver = None
         if rng.random() < 0.3:
             alias = rng.choice(LOOKUP_TEMPLATES)
@@ -645,7 +656,7 @@ def nontrivial(case):
 
 MANIFEST = dict(
     design_ref='6/C06',
-    text="Coq theorems over all aliases, capture selections and tree-shaped argument values: the key text is a function of alias and captured values up to dict/attribute insertion order (deterministic_partial: sets carry their iteration order), arguments excluded from capture and kwargs order are irrelevant, keys are injective on (alias, captured values) for aliases without '=' and captured values in the domain vdom = wf (tree shaped, distinct unreserved keys, no lone surrogates) and leaves_ok (float texts in the float.__repr__ grammar, bytes < 256), given only that the quoted-printable oracle is invertible and maps byte strings to surrogate-free text (both proved for the concrete encoder: C06_key_injective_concrete has no oracle premise); nothing is assumed about json.dumps any more: its injectivity and the self-delimiting text of arrays/objects are proved on the well-formed trees jwf via a verified parser (parse_value fuel (dumps j ++ rest) = Some (j, rest)), flatten maps the value domain into jwf, and witnesses show both facts fail outside jwf; flatten/restore round-trip on the faithful domain; the set-order clause is refuted with a witness (known finding F06). Model (select, flatten, dumps, ikey) tied to /repo on every run by comparing the exact key text of _input_interception_key, and the key found in a recording made through the real decorators, with the model's; direct predicate: same call under two other PYTHONHASHSEED values gives the same key, and no two distinct (alias, captured args) share a key; the key the decorator stores is the key of the argument values AT THE CALL whatever the intercepted function then does to them (grow / drain / edit in place, raise), and the same call made again while that recording is played receives the recorded outcome without a live execution; calls made at the same time by 4 worker threads of one operation with shared argument objects are stored and looked up under exactly the keys the same calls get one after the other.",
+    text="Coq theorems over all aliases, capture selections and tree-shaped argument values: the key text is a function of alias and captured values up to dict/attribute insertion order (deterministic_partial: sets carry their iteration order), arguments excluded from capture and kwargs order are irrelevant, keys are injective on (alias, captured values) for aliases without '=' and captured values in the domain vdom = wf (tree shaped, distinct unreserved keys, no lone surrogates) and leaves_ok (float texts in the float.__repr__ grammar, bytes < 256), given only that the quoted-printable oracle is invertible and maps byte strings to surrogate-free text (both proved for the concrete encoder: C06_key_injective_concrete has no oracle premise); nothing is assumed about json.dumps any more: its injectivity and the self-delimiting text of arrays/objects are proved on the well-formed trees jwf via a verified parser (parse_value fuel (dumps j ++ rest) = Some (j, rest)), flatten maps the value domain into jwf, and witnesses show both facts fail outside jwf; flatten/restore round-trip on the faithful domain; the set-order clause is refuted with a witness (known finding F06). Model (select, flatten, dumps, ikey) tied to /repo on every run by comparing the exact key text of _input_interception_key, and the key found in a recording made through the real decorators, with the model's; direct predicate: same call under two other PYTHONHASHSEED values gives the same key, and no two distinct (alias, captured args) share a key; the key the decorator stores is the key of the argument values AT THE CALL whatever the intercepted function then does to them (grow / drain / edit in place, raise), and the same call made again while that recording is played receives the recorded outcome without a live execution; calls made at the same time by 4 worker threads of one operation with shared argument objects are stored and looked up under exactly the keys the same calls get one after the other; the keys an interception with a resolver / fallback aliases looks up while playing are, in order, the key of the call under the formatted alias and under each fallback alias (compared with the model Recorder.Exec.input_keys, with the key builder and with the keys older versions of the input stored), and every replayed call receives what was recorded for the same captured values under the first of those aliases present - never the value of a sibling call whose arguments differ only by an alias text.",
     note='Trusted: Coq kernel + vm_compute; hand-written model of jsonpickle 0.9.3 flatten + json.dumps on the tree domain; quoted-printable for bytes is an oracle (two premises, theorems for the simple encoder); the float grammar float_repr_ok describes float.__repr__ on CPython with float_repr_style=short (validated against the interpreter, enforced on every float the harness sends); correspondence harness. One clause (sets) is a known finding, reported as KNOWN-FINDING.',
     technique='Coq proof (induction over value trees, sorting/permutation lemmas, verified JSON parser for the printer) + exact key-text correspondence by vm_compute + two-hash-seed differential run',
 )
